@@ -546,6 +546,76 @@ func c19RunCompiled(c *mc.Ctx, sample []c19Compiled) {
 	c.Stats.Add("packages_compiled", int64(len(sample)))
 }
 
+// c19Scale: declaring N unused @external names (between the token rules)
+// renumbers the constants and must change nothing else: the parser automaton
+// lox builds is, read by terminal NAME, the one of the specification without
+// them, and every terminal's number is its position. N crosses 2^8 and 2^16:
+// numbers that no longer fit a byte or 16 bits.
+func c19Scale(c *mc.Ctx, ws *pipe.Workspace) {
+	sizes := []int{65600, 250, 300}
+	spec := func(n int) *pipe.Spec {
+		var b strings.Builder
+		b.WriteString("@lexer\nA = 'a'\n")
+		for i := 0; i < n; i += 10 {
+			b.WriteString("@external")
+			for j := i; j < i+10 && j < n; j++ {
+				fmt.Fprintf(&b, " X%05d", j+1)
+			}
+			b.WriteString("\n")
+		}
+		b.WriteString("B = 'b'\nC = 'c'\n@parser\n@start s = t B | t C | u\nt = A\nu = B t C?\n")
+		return &pipe.Spec{Lox: map[string]string{"g.lox": b.String()}}
+	}
+	// the table read by names: one line per (state, terminal)
+	read := func(n int) ([]string, string) {
+		front, _ := ws.RunFront(spec(n), false)
+		if front.Panic != "" {
+			return nil, "lox panicked: " + firstLine(front.Panic)
+		}
+		if front.V == nil || front.V.Table == nil || front.V.Grammar == nil || !front.OK {
+			return nil, "lox did not accept the specification: " + firstLine(front.Diag)
+		}
+		t := front.V.Table
+		for i, term := range front.V.Grammar.Terminals {
+			if term.Index != i {
+				return nil, fmt.Sprintf("terminal %s has number %d at position %d", term.Name, term.Index, i)
+			}
+		}
+		var lines []string
+		for _, st := range t.States {
+			am := t.Actions(st)
+			for _, term := range am.Terminals() {
+				for _, a := range am.Get(term).Elements() {
+					lines = append(lines, fmt.Sprintf("I%d on %s: %s", st.Index, term.Name, a.ToString(t.Grammar)))
+				}
+			}
+		}
+		sort.Strings(lines)
+		return lines, ""
+	}
+	for i, n := range sizes {
+		if !c.Mine(int64(i)) {
+			continue
+		}
+		base, prob := read(0)
+		if prob != "" {
+			c.Stats.HarnessError("C19 scale baseline: %s", prob)
+			return
+		}
+		got, prob := read(n)
+		c.Stats.Evaluations++
+		c.Stats.Nontrivial++
+		c.Stats.Add("scale_specifications", 1)
+		if prob == "" && strings.Join(got, "\n") != strings.Join(base, "\n") {
+			prob = "the parser actions, read by terminal name, differ from those of the same specification without the @external names: " + pipe.FirstDiff(strings.Join(got, "\n"), strings.Join(base, "\n"))
+		}
+		if prob != "" {
+			c.Stats.Violate(mc.Violation{Property: "C19", Check: "C19", Kind: "scale", Size: n, Case: mustJSON(map[string]any{"scale_externals": n}),
+				Detail: fmt.Sprintf("specification with %d unused @external names declared between the token rules: %s", n, prob)})
+		}
+	}
+}
+
 func c19Worker(c *mc.Ctx) {
 	ws := pipe.NewWorkspace("c19")
 	defer ws.Close()
@@ -568,6 +638,7 @@ func c19Worker(c *mc.Ctx) {
 		c19Collect = nil
 		c19RunCompiled(c, sample)
 	}()
+	c19Scale(c, ws)
 	for i, l := range c19Layouts(maxLen, split) {
 		if !c.Mine(int64(i)) {
 			continue
@@ -593,6 +664,21 @@ func c19Worker(c *mc.Ctx) {
 }
 
 func c19Replay(raw json.RawMessage) *mc.Violation {
+	var sc struct {
+		N int `json:"scale_externals"`
+	}
+	if json.Unmarshal(raw, &sc); sc.N > 0 {
+		ws := pipe.NewWorkspace("c19r")
+		defer ws.Close()
+		ctx := &mc.Ctx{NShards: 1, Tier: "thorough"}
+		c19Scale(ctx, ws)
+		for i := range ctx.Stats.Violations {
+			if ctx.Stats.Violations[i].Size == sc.N {
+				return &ctx.Stats.Violations[i]
+			}
+		}
+		return nil
+	}
 	var l c19Layout
 	if err := json.Unmarshal(raw, &l); err != nil {
 		return &mc.Violation{Property: "C19", Kind: "bad-replay", Detail: err.Error()}
@@ -627,7 +713,7 @@ func init() {
 		ID:    "C19",
 		Level: "exploration",
 		Rule: "layouts: every sequence of up to 4 (quick) / 5 (thorough) declaration items from {default-mode token, mode with 0/1/2 tokens, @external with 1/2 names, fragment that @emit()s an earlier token}, at most two modes, each also split into two files at every position (short layouts); the parser references the first, last and a middle name, the rest stay unreferenced; " +
-			"read back: const block (names, values dense from EOF=0, ERROR=1, textual order over files in name order), _TokenToString evaluated on its AST, accept parameter of every rule in the decoded mode tables, keys of the decoded parser tables against the reference automaton, and a sentence written with the expected constants run on the real runtime; edit-and-regenerate: every neighbour (two adjacent items exchanged) generated over the layout's own output in the same directory equals a fresh generation; non-trivial = layout with >= 3 names",
+			"read back: const block (names, values dense from EOF=0, ERROR=1, textual order over files in name order), _TokenToString evaluated on its AST, accept parameter of every rule in the decoded mode tables, keys of the decoded parser tables against the reference automaton, and a sentence written with the expected constants run on the real runtime; scale: 250, 300 and 65600 unused @external names between the token rules change nothing but the numbers (parser actions read by terminal name equal those of the specification without them); edit-and-regenerate: every neighbour (two adjacent items exchanged) generated over the layout's own output in the same directory equals a fresh generation; non-trivial = layout with >= 3 names",
 		Assume: []string{"expected numbering is computed by the harness from the text it printed", "_TokenToString is evaluated on its AST here; compiled use is exercised by the checked-in parsers (C14) and stage-3 checks"},
 		Worker: c19Worker,
 		Replay: c19Replay,
